@@ -54,6 +54,13 @@ fn gen_pos(r: &mut Rng) -> BigCase {
     let o = GenOpts { hostile: false, max_tracks: 3, long_ops: 42, big_samples: false, rich_config: false };
     let mut sc = gen_mux(r, &o);
     sc.io = IoKnobs::plain();
+    // a third of these (small) histories go through a stream with short transfers, so that the
+    // 64-bit tables are written and read back in pieces
+    match r.below(6) {
+        0 => sc.io.chunking = crate::simdisk::Chunking::Max(16),
+        1 => sc.io.chunking = crate::simdisk::Chunking::Random(r.next_u64()),
+        _ => {}
+    }
     let (side, start) = match r.below(8) {
         0 => (-1, B32 - 1 - r.below(4096)),
         1 => (-1, B32 - 40 - r.below(200)),
